@@ -32,6 +32,8 @@ def date_of(day):
 
 def gen_range(rng, in_quantifier=None):
     d0 = rng.randrange(366, 47482)           # 1971 .. 2099
+    if rng.random() < 0.1:
+        d0 = rng.choice([rng.randrange(-25567, 0), rng.randrange(-40, 10)])      # 1900 .. 1969, and ranges across 1970-01-01
     if rng.random() < 0.3:
         # month/year/leap-day boundaries
         y = rng.randrange(1971, 2100)
@@ -58,6 +60,8 @@ def gen_case(rng, prop):
     if 'start' in c and 'end' in c and c['kind'] != 'bh' and c['start'] < c['end'] and c['end'] % 86400 > c['start'] % 86400 \
             and rng.random() < 0.1:
         c['start_us'] = rng.choice([1, 250000, 999999, rng.randrange(1, 10 ** 6)])
+    if 'start' in c and 'end' in c and c['kind'] in ('weekly', 'daily', 'eom') and rng.random() < 0.15:
+        c['naive'] = True          # both ends handed over as time-zone-naive timestamps
     if 'start' in c and 'end' in c and rng.random() < 0.3:
         # other schedules / clocks over the SAME range were built earlier in this process (a schedule is specified as a
         # function of its own arguments): siblings differing in kind, weekday or the pre/post flags
@@ -116,7 +120,13 @@ def start_of(case):
     if case.get('start_us'):
         import pandas as pd
         t = t + pd.Timedelta(microseconds=case['start_us'])
-    return t
+    return t.tz_localize(None) if case.get('naive') else t
+
+
+def end_of(case):
+    """the range end; with `naive`, both ends are handed over without a time zone (they are then read as UTC)"""
+    t = ts(case['end'])
+    return t.tz_localize(None) if case.get('naive') else t
 
 
 def execute(case):
@@ -130,11 +140,11 @@ def execute(case):
             again = [[xsecs(ev.ts), ev.event_type] for ev in eng]      # the same engine object walked a second time
             return dict(out='ok', events=first, events_again=again)
         if k == 'weekly':
-            r = WeeklyRebalance(start_of(case), ts(case['end']), case['wd'], pre_market=case['pre'])
+            r = WeeklyRebalance(start_of(case), end_of(case), case['wd'], pre_market=case['pre'])
         elif k == 'daily':
-            r = DailyRebalance(start_of(case), ts(case['end']), pre_market=case['pre'])
+            r = DailyRebalance(start_of(case), end_of(case), pre_market=case['pre'])
         elif k == 'eom':
-            r = EndOfMonthRebalance(start_of(case), ts(case['end']), pre_market=case['pre'])
+            r = EndOfMonthRebalance(start_of(case), end_of(case), pre_market=case['pre'])
         elif k == 'bh':
             r = BuyAndHoldRebalance(ts(case['start']))
         elif k == 'isopen':
@@ -150,9 +160,14 @@ def execute(case):
                 rows.append([dd.year, dd.month, dd.day, dd.weekday(), bme])
             return dict(out='ok', dates=rows)
         res = dict(out='ok', times=[xsecs(t) for t in r.rebalances])
+        if k in ('weekly', 'daily', 'eom'):
+            # every instant is stamped in UTC (the session compares them with the clock's UTC events by `==`)
+            res['not_utc'] = [str(t) for t in r.rebalances if t.tzinfo is None or t.utcoffset().total_seconds() != 0][:4]
         if k in ('weekly', 'daily', 'eom') and case['start'] <= case['end']:
-            eng = DailyBusinessDaySimulationEngine(start_of(case), ts(case['end']), pre_market=False, post_market=False)
-            res['clock'] = [xsecs(ev.ts) for ev in eng]
+            eng = DailyBusinessDaySimulationEngine(start_of(case), end_of(case), pre_market=False, post_market=False)
+            evs = [ev.ts for ev in eng]
+            res['clock'] = [xsecs(t) for t in evs]
+            res['clock_not_utc'] = [str(t) for t in evs if t.tzinfo is None or t.utcoffset().total_seconds() != 0][:4]
         return res
     except ValueError:
         return dict(out='ValueError')
@@ -283,6 +298,9 @@ def oracle_c13(case, real):
             key='schedule'))
     if any(a >= b for a, b in zip(real['times'], real['times'][1:])):
         out.append(dict(what='schedule not strictly increasing', key='not-increasing'))
+    if real.get('not_utc') or real.get('clock_not_utc'):
+        out.append(dict(what='instants not stamped in UTC: schedule %r, clock %r' % (real.get('not_utc'), real.get('clock_not_utc')),
+                        key='not-stamped-utc'))
     if not case['pre'] and 'clock' in real:
         clock = set(real['clock'])
         miss = [t for t in real['times'] if t not in clock]
@@ -341,9 +359,14 @@ def run(prop, tier, seed, n_cases, corpus=()):
                     break
         if c['kind'] == 'civil':
             stats['calendar_days_checked'] += c['n']
-        for x in compare(c, r, m, tally):
-            x['case_index'] = i
-            mism.append(x)
+        if c['kind'] == 'eom' and c['start'] < 0:
+            # the model's month arithmetic counts months from January 1970 (its theorems carry `0 <= dayOf start`): a month-end
+            # schedule starting before 1970 is judged by the oracle's independent calendar only
+            hist['eom:before-1970 (oracle only)'] += 1
+        else:
+            for x in compare(c, r, m, tally):
+                x['case_index'] = i
+                mism.append(x)
         for f in ORACLES[prop](c, r):
             f['case_index'] = i
             oracle.append(f)
